@@ -9,6 +9,7 @@ import (
 	"github.com/coreruleset/crs-toolchain/v2/configuration"
 	"github.com/coreruleset/crs-toolchain/v2/context"
 	"github.com/coreruleset/crs-toolchain/v2/regex"
+	"github.com/coreruleset/crs-toolchain/v2/regex/parser"
 	"github.com/coreruleset/crs-toolchain/v2/regex/processors"
 )
 
@@ -17,6 +18,7 @@ func init() {
 	vHarnesses["VerifC09FileOnce"] = VerifC09FileOnce
 	vHarnesses["VerifC09FileFixedPoint"] = VerifC09FileFixedPoint
 	vHarnesses["VerifC10LineContent"] = VerifC10LineContent
+	vHarnesses["VerifC10LineMeaning"] = VerifC10LineMeaning
 }
 
 // formatStep is the per-line step of `regex format` exactly as Parse(true) + processFile compose it:
@@ -83,6 +85,26 @@ func VerifC10LineContent() {
 	}
 }
 
+// C10 (per line, meaning): for ANY ASCII line (control bytes included) the compiler classifies the formatted line as
+// it classified the original one, and an entry (a line that is regex text) keeps every byte apart from its leading
+// blanks and tabs - white space inside or at the end of an entry is part of the regex.
+func VerifC10LineMeaning() {
+	l := vNondetStrA("line", 24)
+	vAssume(!strings.Contains(l, "\n"))
+	indent := vParam("indent")
+	o1, _, e1 := formatStep(l, indent)
+	vAssume(e1 == nil)
+	vReach("formatted")
+	before := strings.TrimLeft(l, " \t")
+	after := strings.TrimLeft(o1, " \t")
+	kb := parser.VerifParseKind(before)
+	ka := parser.VerifParseKind(after)
+	vAssert(kb == ka, "C10 the compiler classifies the formatted line as it classified the original line")
+	if kb == 0 && !strings.HasPrefix(before, "##!") {
+		vAssert(after == before, "C10 an entry keeps every byte apart from its indentation")
+	}
+}
+
 const (
 	hdr1 = "##! Please refer to the documentation at"
 	hdr2 = "##! https://coreruleset.org/docs/development/regex_assembly/."
@@ -121,6 +143,14 @@ func c09Input() (string, int) {
 	}
 	if finalNL && k > 0 {
 		in += "\n"
+	}
+	if h := vParam("hdr"); h > 0 {
+		// the file already carries the standard header, without (1) or with (2) the blank line after it
+		pre := hdr1 + "\n" + hdr2 + "\n"
+		if h == 2 {
+			pre += "\n"
+		}
+		in = pre + in
 	}
 	return in, k
 }
